@@ -282,14 +282,20 @@ def ref_pda_run(js, w, max_confs=2000):
 
 
 # ---------------------------------------------------------------- C17: independent reading of a well-formed description
-def _read_description(text):
-    """tokens of a WELL-FORMED description -> (declared items, transition triples). Reference reader for replays only."""
+_KEYWORDS = {'dfa': ('input_symbols', 'epsilon', 'stack_symbols', 'tape_symbols', 'blank', 'accept', 'reject'),   # parse_dfa uses the union
+             'nfa': ('input_symbols', 'epsilon'), 'pda': ('input_symbols', 'stack_symbols', 'epsilon'),
+             'tm': ('input_symbols', 'tape_symbols', 'blank', 'accept', 'reject')}
+
+
+def _read_description(text, kind='dfa'):
+    """tokens of a WELL-FORMED description -> (declared items, transition triples). Reference reader for replays only;
+    the keywords are those documented for the format (a PDA state may be called accept, a DFA state may not)"""
     items, trans = {}, []
     for line in text.split('\n'):
         w = line.split()
         if not w or w[0].startswith('%'):
             continue
-        if w[0] in ('states', 'initial', 'final', 'input_symbols', 'epsilon', 'stack_symbols', 'tape_symbols', 'blank', 'accept', 'reject'):
+        if w[0] in ('states', 'initial', 'final') + _KEYWORDS[kind]:
             items[w[0]] = w[1:]
         else:
             trans += [(w[0], a, w[1]) for a in w[2:]]
@@ -305,7 +311,7 @@ def described_dfa(text):
 
 
 def described_nfa(text):
-    items, trans = _read_description(text)
+    items, trans = _read_description(text, 'nfa')
     used = set(items.get('initial', [])) | set(items.get('final', [])) | {p for p, _, _ in trans} | {q for _, _, q in trans}
     Q = set(items['states']) if 'states' in items else used
     eps = items['epsilon'][0] if 'epsilon' in items else ('ε' if any('ε' in a for _, a, _ in trans) else '_')
@@ -318,7 +324,7 @@ def described_nfa(text):
 
 
 def described_pda(text):
-    items, trans = _read_description(text)
+    items, trans = _read_description(text, 'pda')
     used = set(items.get('initial', [])) | set(items.get('final', [])) | {p for p, _, _ in trans} | {q for _, _, q in trans}
     Q = set(items['states']) if 'states' in items else used
     eps = items['epsilon'][0] if 'epsilon' in items else ('ε' if any('ε' in a for _, a, _ in trans) else '_')
@@ -329,7 +335,7 @@ def described_pda(text):
 
 
 def described_tm(text):
-    items, trans = _read_description(text)
+    items, trans = _read_description(text, 'tm')
     acc, rej = items['accept'][0], items['reject'][0]
     used = set(items.get('initial', [])) | {p for p, _, _ in trans} | {q for _, _, q in trans}
     Q = set(items['states']) if 'states' in items else used | {acc, rej}
